@@ -796,6 +796,9 @@ func (m *Model) walkInlined(fn *ssa.Function, maxDepth int, visit func(in ssa.In
 				if sc == nil || sc.Blocks == nil || !m.InModule(sc) || stack[sc] || fnPkgPath(sc) != fnPkgPath(fn) {
 					continue
 				}
+				if m.callsAnyOf(sc, stack) {
+					continue // a callee that calls back into the chain (the recursive dispatcher): not a piece of fn's body
+				}
 				nb := map[*ssa.Parameter]ssa.Value{}
 				for i, a := range c.Common().Args {
 					if i < len(sc.Params) {
@@ -809,4 +812,18 @@ func (m *Model) walkInlined(fn *ssa.Function, maxDepth int, visit func(in ssa.In
 		}
 	}
 	walk(fn, map[*ssa.Parameter]ssa.Value{}, 0, map[*ssa.Function]bool{fn: true})
+}
+
+// callsAnyOf: does fn contain a static call to a member of set?
+func (m *Model) callsAnyOf(fn *ssa.Function, set map[*ssa.Function]bool) bool {
+	for _, b := range fn.Blocks {
+		for _, in := range b.Instrs {
+			if c, ok := in.(ssa.CallInstruction); ok {
+				if sc := c.Common().StaticCallee(); sc != nil && set[sc] {
+					return true
+				}
+			}
+		}
+	}
+	return false
 }
